@@ -257,6 +257,79 @@ def rule_segment_width(ctx: Ctx, clause: str = "C03.13") -> RuleResult:
     return rr
 
 
+def rule_segment_positive(ctx: Ctx, clause: str = "C03.15") -> RuleResult:
+    """LayoutSegment rejects a text segment of zero columns, (0, start, end).  A width that was *measured*
+    (calc_width of a run that may consist of zero-width characters only) or *computed as a remainder* (what is left
+    after trimming) can be 0: the segment may only be built where the path has established that the width is positive
+    (a test of the width itself, or the run is known to contain a double-width character)."""
+    from ..rules.defuse import DefUse
+
+    p = ctx.p
+    rr = RuleResult("GUARD", clause, "a (columns, start, end) text segment whose width was measured or is a remainder is only built under a test that the width is positive", floor=4)
+    for q in (f"{STL}.calculate_text_segments", f"{STL}._calculate_trimmed_segments", "urwid.text_layout.LayoutSegment.subseg"):
+        fi = p.func(q)
+        du = DefUse(fi)
+        cfg = du.cfg
+        for node in cfg.nodes:
+            if node.ast is None or node.kind in ("for", "with", "handler"):
+                continue
+            for t in walk_no_nested(node.ast):
+                if not (isinstance(t, ast.Tuple) and len(t.elts) == 3 and isinstance(t.ctx, ast.Load)):
+                    continue
+                W = t.elts[0]
+                if isinstance(W, ast.Constant) or (isinstance(t.elts[2], (ast.Constant,)) and isinstance(t.elts[2].value, (str, bytes))):
+                    continue
+                if isinstance(W, ast.Name):
+                    defs = [v for v, how, dn in du.reaching(W.id, node) if isinstance(v, ast.AST)]
+                    risky = [v for v in defs if (isinstance(v, ast.Call) and callee_name(v) == "calc_width") or (isinstance(v, ast.BinOp) and isinstance(v.op, ast.Sub))]
+                    if not risky:
+                        continue  # e.g. the column count calc_text_pos returned together with an advanced offset
+                    wtxt = W.id
+                elif isinstance(W, ast.BinOp) and isinstance(W.op, ast.Sub):
+                    wtxt = ast.unparse(W)
+                else:
+                    continue
+                # guard tests and the edge on which the width is known to be positive
+                pos_edges = {}
+                for tst in cfg.nodes:
+                    if tst.kind != "test":
+                        continue
+                    conj = [ast.unparse(v) for v in tst.ast.values] if isinstance(tst.ast, ast.BoolOp) and isinstance(tst.ast.op, ast.And) else [ast.unparse(tst.ast)]
+                    disj = [ast.unparse(v) for v in tst.ast.values] if isinstance(tst.ast, ast.BoolOp) and isinstance(tst.ast.op, ast.Or) else [ast.unparse(tst.ast)]
+                    posT = {wtxt, f"{wtxt} > 0", f"{wtxt} >= 1", f"0 < {wtxt}"}
+                    posF = {f"{wtxt} == 0", f"{wtxt} <= 0", f"not {wtxt}", f"{wtxt} < 1"}
+                    if " - " in wtxt and wtxt.count(" - ") == 1:
+                        x_, y_ = wtxt.split(" - ")
+                        posT |= {f"{x_} > {y_}", f"{y_} < {x_}"}
+                        posF |= {f"{y_} >= {x_}", f"{x_} <= {y_}"}
+                    if any(c in posT or c.startswith("is_wide_char(") for c in conj):
+                        pos_edges[tst] = "T"
+                    elif any(c in posF for c in disj):
+                        pos_edges[tst] = "F"
+                # the segment must not be reachable from the definition of the width (or from the entry, for an
+                # expression) without crossing a positive edge
+                starts = [dn for v, how, dn in du.reaching(W.id, node) if isinstance(v, ast.AST)] if isinstance(W, ast.Name) else [cfg.entry]
+                seen, work = set(starts), list(starts)
+                while work:
+                    n_ = work.pop()
+                    for m_, lab in n_.succ:
+                        if lab == "e" or (n_ in pos_edges and lab == pos_edges[n_]):
+                            continue
+                        if m_ not in seen:
+                            seen.add(m_)
+                            work.append(m_)
+                ok = node not in seen
+                if not ok:
+                    # the measured run is known to contain a double-width character: the measurement itself is made
+                    # under `is_wide_char(...)`
+                    wide = [tst for tst in cfg.nodes if tst.kind == "test" and ast.unparse(tst.ast).startswith("is_wide_char(")]
+                    ok = any(all(st not in ExcEngine._reach_without_edge(cfg, tst, "T") for st in starts) for tst in wide) and cfg.entry not in starts
+                rr.inst(f"{short(fi)}:{norm(t, 40)}@{node.lineno}", True, {"segment": f"{short(fi)}: {norm(t, 50)}", "guarded": ok} if len(rr.samples) < 6 else None)
+                if not ok:
+                    rr.add(finding("GUARD", fi, node.stmt, f"the text segment `{norm(t, 50)}` is built without a test that `{wtxt}` is positive: for a run of zero-width characters only (or when trimming leaves nothing of a double-width character) the width is 0 and LayoutSegment raises ValueError instead of the text simply not being shown", construct=f"segment {norm(t, 50)} without positivity test"))
+    return rr
+
+
 def run(ctx: Ctx):
     p = ctx.p
     # the text-consuming loops of the layout class (calc_pos's search loop pops from the lists its test reads and is
@@ -278,6 +351,7 @@ def run(ctx: Ctx):
         accum.run_accum(p, "C03.9", "C03", floor=3),
         rule_trim_width(ctx),
         rule_segment_width(ctx),
+        rule_segment_positive(ctx),
         c11.rule_scan_exit_twins(ctx, "C03.14"),
         loopfresh.run_loopfresh(p, "C03.12", "C03", floor=6),
         offstep.run_offstep(p, "C03.10", [f.qualname for f in p.modules[TL].functions], floor=5),
@@ -286,6 +360,9 @@ def run(ctx: Ctx):
 
 _T = "urwid/text_layout.py"
 MUTANTS = [
+    Mut("clip-line-of-zero-width-chars", _T, "StandardTextLayout._calculate_trimmed_segments", "            if idx != end_off and screen_columns > 0:", "            if idx != end_off:", "GUARD|text_layout.StandardTextLayout._calculate_trimmed_segments"),
+    Mut("space-wrap-zero-width-prefix", _T, "StandardTextLayout.calculate_text_segments", "                    if idx != prev and screen_columns > 0:", "                    if idx != prev:", "GUARD|text_layout.StandardTextLayout.calculate_text_segments"),
+    Mut("subseg-empty-remainder", _T, "LayoutSegment.subseg", "            if end - start - pad_left - pad_right > 0:\n                lines.append((end - start - pad_left - pad_right, spos, epos))", "            lines.append((end - start - pad_left - pad_right, spos, epos))", "GUARD|text_layout.LayoutSegment.subseg"),
     Mut("wide-wrap-width-of-sibling-branch", _T, "StandardTextLayout.calculate_text_segments", "                    screen_columns = calc_width(text, idx, next_char)", "                    screen_columns = calc_width(text, idx, prev)", "PAIR|text_layout.StandardTextLayout.calculate_text_segments"),
     Mut("pad-right-carried-to-next-line", _T, "StandardTextLayout._calculate_trimmed_segments", "                trimmed = False\n                end_off = nl_pos\n                pad_right = 0\n", "                trimmed = False\n                end_off = nl_pos\n", "LOOPFRESH|text_layout.StandardTextLayout._calculate_trimmed_segments", also=[("        ellipsis_char = ellipsis_string.encode(encoding)\n\n        idx = 0\n", "        ellipsis_char = ellipsis_string.encode(encoding)\n\n        idx = 0\n        pad_right = 0\n")]),
     Mut("ellipsis-segment-one-column-short", _T, "StandardTextLayout._calculate_trimmed_segments", "screen_columns = width - ellipsis_width - pad_right", "screen_columns = width - 1 - pad_right", "PAIR|text_layout.StandardTextLayout._calculate_trimmed_segments"),
